@@ -36,6 +36,7 @@ ASSUMPTIONS = [
 ]
 BOUNDS = {"quick": dict(D=[2], R=[1, 2, 3], idx_len=2, D_light=[3], R_light=[2, 4]), "thorough": dict(D=[1, 2, 3], R=[1, 2, 3, 4], idx_len=3, R_extra=[5, 6])}
 BUDGET = {"quick": 900, "thorough": 7200}
+WORKERS = {"thorough": 10}  # long-lived workers of the thorough tier compile thousands of programs each: fewer of them, less memory
 
 
 # ---------------------------------------------------------------------------
